@@ -59,6 +59,12 @@ def build(case):
     scal = [j["name"] for b in spec["bodies"] for j in b["joints"] if j["type"] in ("hinge", "slide")]
     for k, jn in enumerate(scal[:2]):
       spec["sensors"].append(dict(kind="jointpos" if k == 0 else "jointvel", joint=jn, delay=0.004 * (k + 1), nsample=3 + k, interp=["zoh", "linear"][k]))
+    # vector-valued delayed / interval sensors (history value blocks of n*dim entries)
+    sites = [s_["name"] for b in spec["bodies"] for s_ in b["sites"]]
+    kinds = [("framepos", dict(delay=0.006, nsample=3, interp="linear")), ("framequat", dict(delay=0.004, nsample=2)), ("framelinvel", dict(interval=[0.006, -0.002], delay=0.002, nsample=2))]
+    for k, sn in enumerate(sites[:3]):
+      kind, extra = kinds[(k + case["seed"]) % 3]
+      spec["sensors"].append(dict(kind=kind, objtype="site", objname=sn, **extra))
   return H.compile_spec(spec)
 
 
